@@ -160,7 +160,7 @@ def sh(cmd, env=None, cwd=None, timeout=1800):
 def test_failures(scratch, tests):
     env = dict(os.environ, PYTHONDONTWRITEBYTECODE='1', PYTHONPATH=f'{scratch}/src:{VERIF}/shims')
     env.pop('VERIF_BOOTSTRAPPED', None)
-    r = sh(['/venv/bin/python', '-m', 'pytest', '-p', 'no:cacheprovider', '-q', '-x' if False else '-q'] + [f'tests/{t}' for t in tests],
+    r = sh(['/venv/bin/python', '-m', 'pytest', '-p', 'no:cacheprovider', '-q'] + [f'tests/{t}' for t in tests],
            env=env, cwd=scratch, timeout=900)
     m = re.search(r'(\d+) failed', r.stdout)
     e = re.search(r'(\d+) error', r.stdout)
